@@ -185,6 +185,20 @@ replace %s => %s
 	if err != nil {
 		die(2, "copy scen: %v %s", err, out)
 	}
+	// the root-module variant: same scenario sources, import path switched
+	rdir := filepath.Join(scratch, "r")
+	must(os.MkdirAll(filepath.Join(rdir, "scen"), 0755))
+	rootmod := "github.com/PapaCharlie/go-restli"
+	rgomod := fmt.Sprintf("module vscratch\n\ngo 1.22.0\n\nrequire (\n\tverif v0.0.0\n\t%s v0.0.0\n\tgithub.com/anishathalye/porcupine v1.3.0\n)\n\nreplace verif => %s\n\nreplace %s => %s\n", rootmod, verifDir, rootmod, repoDir)
+	must(os.WriteFile(filepath.Join(rdir, "go.mod"), []byte(rgomod), 0644))
+	rsum, _ := os.ReadFile(filepath.Join(repoDir, "go.sum"))
+	must(os.WriteFile(filepath.Join(rdir, "go.sum"), append(append([]byte{}, sum...), rsum...), 0644))
+	for _, f := range []string{"s1/s1_test.go", "s2/s2_test.go"} {
+		data, err := os.ReadFile(filepath.Join(verifDir, "scen", f))
+		must(err)
+		must(os.MkdirAll(filepath.Dir(filepath.Join(rdir, "scen", f)), 0755))
+		must(os.WriteFile(filepath.Join(rdir, "scen", f), bytes.ReplaceAll(data, []byte("go-restli/v2/"), []byte("go-restli/")), 0644))
+	}
 	// back end B lives in its own module: testing/synctest needs the go1.26.8 toolchain and the
 	// timer semantics that come with a go >= 1.23 main module
 	bdir := filepath.Join(scratch, "b")
@@ -249,7 +263,7 @@ func ensureTools() {
 // buildScenario instruments the current tree for the given seam set and compiles the
 // scenario's test binary with the race detector.
 func buildScenario(b *Batch) *builtBin {
-	key := b.Pkg + "|" + b.Seams.key()
+	key := b.Pkg + "|" + b.Seams.key() + "|" + b.Module
 	buildMu.Lock()
 	defer buildMu.Unlock()
 	if bb, ok := built[key]; ok {
@@ -259,7 +273,11 @@ func buildScenario(b *Batch) *builtBin {
 	ovDir := filepath.Join(scratch, fmt.Sprintf("ov%d", idx))
 	overlay := filepath.Join(scratch, fmt.Sprintf("overlay%d.json", idx))
 	statsFile := filepath.Join(scratch, fmt.Sprintf("instr%d.json", idx))
-	args := []string{"-dir", repoDir + "/v2", "-out", ovDir, "-overlay", overlay, "-stats", statsFile}
+	modDir := repoDir + "/v2"
+	if b.Module == "root" {
+		modDir = repoDir
+	}
+	args := []string{"-dir", modDir, "-out", ovDir, "-overlay", overlay, "-stats", statsFile}
 	if b.Seams.Sync != "" {
 		args = append(args, "-sync", b.Seams.Sync)
 	}
@@ -273,7 +291,7 @@ func buildScenario(b *Batch) *builtBin {
 		var adds []string
 		for _, a := range strings.Split(b.Seams.Add, ",") {
 			kv := strings.SplitN(a, "=", 2)
-			adds = append(adds, filepath.Join(verifDir, kv[0])+"="+filepath.Join(repoDir, "v2", kv[1]))
+			adds = append(adds, filepath.Join(verifDir, kv[0])+"="+filepath.Join(modDir, kv[1]))
 		}
 		args = append(args, "-add", strings.Join(adds, ","))
 	}
@@ -307,6 +325,9 @@ func buildScenario(b *Batch) *builtBin {
 	if b.Bubble {
 		gobin, gdir = "go1.26.8", filepath.Join(scratch, "b")
 	}
+	if b.Module == "root" {
+		gdir = filepath.Join(scratch, "r")
+	}
 	out, err = run(gdir, goEnv, gobin, targs...)
 	if err != nil {
 		die(2, "building scenario %s failed (exit 2: build trouble, not a violation): %v\n%s", b.Pkg, err, out)
@@ -325,7 +346,7 @@ func buildScenario(b *Batch) *builtBin {
 func workerEnv(b *Batch, prop string, extra ...string) []string {
 	env := append([]string{}, goEnv...)
 	if b.GenSim {
-		if bb := built[b.Pkg+"|"+b.Seams.key()]; bb != nil {
+		if bb := built[b.Pkg+"|"+b.Seams.key()+"|"+b.Module]; bb != nil {
 			env = append(env, "VW_GENSIM="+bb.gensim)
 		}
 		tmp := filepath.Join(scratch, "tmp")
